@@ -768,6 +768,14 @@ fn join(mut lhs: Lineage, rhs: Lineage) -> Lineage {
 }
 
 fn append(mut top: Lineage, bottom: Lineage) -> Result<Lineage, Error> {
+    // A wildcard stands for an unknown number of columns: the number of lineage entries of a
+    // relation that contains one says nothing about its arity, so it cannot be compared.
+    let has_wildcard =
+        |l: &Lineage| (l.columns.iter()).any(|c| matches!(c, LineageColumn::All { .. }));
+    if top.columns.len() != bottom.columns.len() && (has_wildcard(&top) || has_wildcard(&bottom)) {
+        top.inputs.extend(bottom.inputs);
+        return Ok(top);
+    }
     if top.columns.len() != bottom.columns.len() {
         return Err(Error::new_simple(
             "cannot append two relations with non-matching number of columns.",
